@@ -282,7 +282,18 @@ class C13(Check):
 
 class C12(Check):
     id = "C12"
-    modules = ["EG.Props.C12"]
+    modules = ["EG.Props.C12Table", "EG.Props.C12"]
+
+    def regenerate(self, log):
+        import tables_alias
+        from engine import Violation
+        n, changed, leaking = tables_alias.regenerate()
+        log["table_rows"] = n
+        log["table_changed_since_last_run"] = changed
+        log["table_leaking_exchange_points"] = leaking
+        # a leaking row IS a concrete failing input: the exchange point, the state and the caller's edit
+        return [Violation("oracle", "exchange point `%s`: an edit of the caller's collection changed what is observed afterwards "
+                          "(harness/tables_alias.py replays it)" % name, ["exchange:" + name]) for name in leaking[:3]]
     assumptions = ["the containers exchanged are those listed in DESIGN.md 3/C12; `mut` applies append / clear / reverse / pop / insert / "
                    "item assignment (lists), add / clear / discard (sets), clear / item assignment / pop / inner-dict edits (dicts); "
                    "TypeError / AttributeError on tuples and mapping proxies counts as immutable"]
